@@ -94,6 +94,9 @@ func (p *Prog) verifyFunc(t target, findings []*Finding) (fr *FuncResult) {
 		for _, m := range sp.Modifies {
 			e.frame = append(e.frame, env.modLoc(m))
 		}
+		for _, rv := range sp.Reveals {
+			c.assume("true", env.reveal(rv))
+		}
 		// pin frame terms
 	}
 	for i, f := range findings {
